@@ -89,6 +89,8 @@ MUTANTS = [
      "            if copy_into.is_symlink():\n", "            if copy_into.is_symlink() and copy_into.exists():\n", ["C18"]),
     ("revert-D28-foreign-link", "execution/ops/combine_outputs.py",
      "                if not _is_conductor_link(copy_into, dep_id, ctx):\n", "                if False:\n", ["C18"]),
+    ("revert-D29-include-scope", "parsing/task_loader.py",
+     "            exec(include_code, scope)\n", "            exec(include_code, {}, scope)\n", ["C15"]),
     ("loader-no-dup-check", "parsing/task_index.py",
      "                    if dep_identifier in task_deps_set:\n", "                    if dep_identifier in task_deps_set and len(task_deps) > 2:\n", ["C14"]),
 ]
